@@ -99,7 +99,10 @@ _STRINGS = st.one_of(
         "u'uni'", "''", '""', "'\\''", '"\'"', "'\\\\'", "'\\\\\\''",
         "'a\\\nb'", "'{{ jinja }}'", "'{% raw %}'", "'#'", "' lead'",
         "'trail '", "'=' ", "'K=V'", "'None'", "'1'", "'inf'", "'nan'"]),
-    st.text(max_size=5).map(repr),
+    # any code point incl. lone surrogates (no st.text(): building the
+    # Hypothesis unicode charmap costs ~40 s CPU in every fresh worker)
+    st.lists(st.integers(0, 0x10FFFF).map(chr), max_size=5).map(
+        lambda cs: repr(''.join(cs))),
 )
 _BYTES = st.one_of(
     st.binary(max_size=6).map(repr),
